@@ -73,6 +73,30 @@ def gen_dir(rng, root, idx, allow_fatal):
     return d, files
 
 
+def dlint_fatal_determinism(ctx, prefix="C19"):
+    """A directory with ONE unparsable file among files with diagnostics: the report must be the same for every thread count / order."""
+    dl = build_dlint(ctx)
+    root = os.path.join(lib.WORK, "dlint-fatal-%s" % prefix)
+    shutil.rmtree(root, ignore_errors=True)
+    os.makedirs(root)
+    rng = random.Random(ctx.seed + 1900)
+    names = ["f%02d.ts" % i for i in range(40)]
+    for i, nm in enumerate(names):
+        open(os.path.join(root, nm), "w").write("function (\n" if i == 17 else "debugger;\n")
+    runs = []
+    for th in (1, 2, 3, 4, 8, 16, 2, 8):
+        args = names[:]
+        rng.shuffle(args)
+        rc, so, se = run_dlint(dl, root, ["--rule", "no-debugger", "--format", "compact"] + args, th)
+        runs.append((th, rc, se))
+    if len({se for _, _, se in runs}) > 1 or any(rc == 0 for _, rc, _ in runs):
+        a = runs[0]; b = next((r for r in runs if r[2] != a[2]), runs[-1])
+        ctx.violation("%s.dlint-report-depends-on-schedule-with-unparsable-file" % prefix,
+                      "40 files, one unparsable: stderr/exit differ between thread counts %d and %d" % (a[0], b[0]),
+                      {"dir": root, "run_a": {"threads": a[0], "exit": a[1], "stderr": a[2][-1200:]}, "run_b": {"threads": b[0], "exit": b[1], "stderr": b[2][-1200:]}})
+    return len(runs)
+
+
 @register("C19")
 def c19(ctx):
     ctx.assumptions.append("each eprintln!/atomic fetch_add/locked BTreeMap insert is one atomic action; OS pipe line atomicity assumed; with >= 2 fatally unparsable files only the exit status is specified (which Err rayon returns is schedule dependent)")
@@ -93,6 +117,7 @@ def c19(ctx):
     nfail = collections.Counter()
     samples = []
     model_lines, model_meta = [], []
+    fatal_reports = {}
     for ci in range(ncases):
         d, files = gen_dir(rng, root, ci, allow_fatal=(ci % 4 == 3))
         fmt = rng.choice(["compact", "pretty"])
@@ -128,8 +153,8 @@ def c19(ctx):
         model_lines.append(pipe.enc_list(files, lambda f: "%s %d %d %d" % (pipe.enc_str(f["name"]), 1 if fatal[f["name"]] else 0,
                                                                              0, counts[f["name"]])))
         model_meta.append((total, any_fatal, order))
-        for rep in range(reps):
-            th = rng.choice([1, 2, 3, 4, 8, 16])
+        for rep in range(reps + (5 if any_fatal else 0)):
+            th = rng.choice([1, 2, 3, 4, 8, 16]) if rep else 1
             args = names[:]
             rng.shuffle(args)
             rc, so, se = run_dlint(dl, d, ["--format", fmt] + args, th)
@@ -140,6 +165,9 @@ def c19(ctx):
             if any_fatal:
                 if rc == 0:
                     ctx.violation("C19.exit-status-fatal", "a file fails to parse but exit status 0", {"dir": d, "args": args, "threads": th})
+                # with exactly one unparsable file the whole report must still not depend on schedule or argument order
+                if sum(1 for v in fatal.values() if v) == 1:
+                    fatal_reports.setdefault(ci, []).append((th, args, se))
                 continue
             want_rc = 1 if total > 0 else 0
             if rc != want_rc or n != total:
@@ -156,6 +184,12 @@ def c19(ctx):
                                    "replay": "cd %s && RAYON_NUM_THREADS=%d %s run --format %s %s" % (d, th, dl, fmt, " ".join(args))})
         if ci < 2:
             samples.append({"dir": d, "files": [(f["name"], f["kind"]) for f in files], "format": fmt, "total": total})
+    for ci, runs in fatal_reports.items():
+        outs = {se for (_, _, se) in runs}
+        if len(outs) > 1:
+            a, b = runs[0], next(r for r in runs if r[2] != runs[0][2])
+            ctx.violation("C19.report-depends-on-schedule-with-unparsable-file", "one file fails to parse: the report differs between runs (threads %d vs %d)" % (a[0], b[0]),
+                          {"dir": os.path.join(root, "case%04d" % ci), "run_a": {"threads": a[0], "args": a[1], "stderr": a[2][-1500:]}, "run_b": {"threads": b[0], "args": b[1], "stderr": b[2][-1500:]}})
     # model vs implementation: count / exit / order of blocks
     mod = lib.run_model("dlint", "run", model_lines)
     for line, (total, any_fatal, order) in zip(mod, model_meta):
@@ -204,6 +238,7 @@ def c19(ctx):
         want_codes = sorted(d["code"] for d in res.get("ok", []))
         if got_codes != want_codes:
             ctx.violation("C19.rule-selection", "%s %s ran codes %s, expected %s" % (flag, val, got_codes, want_codes), {"cfg": cfg, "stderr": se[-1500:]})
+    evaluations += dlint_fatal_determinism(ctx, "C19")
     ctx.correspondence("dlint binary vs per-file reports merged by the model (threads 1-16, shuffled argument orders, %d repetitions)" % reps,
                        evaluations, len(nontriv), mism[:5],
                        "generated directories (1-40 files; clean/dirty/recoverable-parse/fatal; 6 extensions; compact and pretty); expected stderr = single-file "
